@@ -144,3 +144,22 @@ chk("C07", "TARMK", "exploration",
     "graphs. Oracle: terminates; ASan clean; exit 0 => valid image (validator, model for link graphs); exit != 0 => diagnostic and no output file.",
     "Deviation 1 from valid inputs plus single-byte coverage of small inputs; declared sparse sizes bounded to 4 GiB + 1.",
     "bounded exhaustive enumeration of deviations from valid inputs against a termination/memory-safety/fail-stop oracle", "3/C07")
+
+ENGINES += [
+    dict(name="HIST", path="engines/hist/reader_hist.c engines/hist/copy_hist.c", serves_properties=["C10", "C19"],
+         kind_free_text="API-history exploration in C against the real library: state = operation history replayed on fresh objects, answers compared with fresh-object answers; "
+                        "BFS with deduplication on the private state where it is observable (metadata reader)"),
+]
+
+chk("C15", "TARMK", "exploration",
+    "Archives (1.5 KiB, 40 KiB, incompressible archives sized around the 128 KiB and 256 KiB buffers) x reference encoders for gzip/xz/bzip2/zstd(+checksum) x levels x block sizes; "
+    "two-member splits at every offset / every 512-byte boundary +-1, a three-member split, real pipes with chunk sizes 1..65536 through tar2sqfs: image sha256 == plain archive's. Trailing "
+    "padding/garbage, every proper prefix and every single-byte corruption of the compressed small archive: error or the intact image. sqfs2tar -c X expanded by the reference decoder == plain output.",
+    "Reference codecs are Python zlib/lzma/bz2 and the system libzstd; corruption of a zstd frame without content checksum is undetectable by design and not demanded.",
+    "bounded exhaustive enumeration of codec x split x chunking configurations against the uncompressed reference", "3/C15")
+chk("C10", "HIST", "model_checking",
+    "Every history of length <= 3 (quick) / 4 (thorough) over 24 reader operations with valid and invalid arguments is replayed on fresh reader objects for gensquashfs images of every "
+    "compressor, an image from the independent writer and six damaged variants; each answer (status, payload hash) must equal the same operation's answer on fresh readers. The metadata "
+    "reader is explored by BFS to a fixpoint over seek+read operations with deduplication on its complete private state. Stream, positional read and per-block access must agree.",
+    "Depth-bounded for all readers but the metadata reader; directory reader with flags 0.",
+    "explicit-state exploration of API histories on the implementation with a fresh-object reference", "3/C10")
